@@ -289,6 +289,17 @@ def bracket_problem(ctx, kind_hint=None):
     return e, float(a * s), float(b * s), roots, fam
 
 
+def halvings(a, b, xtol, cap=5000, exact=False):
+    """least k in 1..cap with |b-a|/2^k < xtol (doubles, the code's own `dm *= 0.5`; or exact rationals)"""
+    d = (Fraction(b) - Fraction(a)) if exact else (b - a)
+    xt = Fraction(xtol) if exact else xtol
+    for k in range(1, cap + 1):
+        d = d / 2 if exact else d * 0.5
+        if abs(d) < xt:
+            return k
+    return None
+
+
 def check_bracket_result(ctx, name, e, a, b, xtol, rtol, maxiter, roots, out0, r0, out1):
     """spec oracle for bisect / brentq on one input; out0/r0 with disp=False, out1 with disp=True"""
     rep = {"op": name, "f": e.wire(), "a": a, "b": b, "xtol": xtol, "rtol": rtol, "maxiter": maxiter,
@@ -307,6 +318,19 @@ def check_bracket_result(ctx, name, e, a, b, xtol, rtol, maxiter, roots, out0, r
         ctx.spec_fail(name + "_raise_nodisp", "%s raised %s with disp=False" % (name, out0), rep)
         return
     root, calls, iters, conv = float(r0.root), int(r0.function_calls), int(r0.iterations), bool(r0.converged)
+    if name == "bisect" and rtol >= 0 and fa != 0 and fb != 0:
+        # theorem bisect_terminates: K = least k with |b-a|/2^k < xtol halvings suffice. Halving a double is exact
+        # and xtol + rtol|xm| >= xtol also in doubles, so the bound holds for the code without any slack.
+        K = halvings(a, b, xtol)
+        rep_k = dict(rep, K=K)
+        if K is not None:
+            if conv and iters > K:
+                ctx.spec_fail("bisect_iteration_bound", "bisect: %d iterations, but %d halvings bring |b-a| below xtol" % (iters, K), rep_k)
+            elif not conv and maxiter >= K:
+                ctx.spec_fail("bisect_iteration_bound", "bisect: converged=False with maxiter=%d although %d halvings bring |b-a| "
+                              "below xtol" % (maxiter, K), rep_k)
+            else:
+                ctx.count("bisect:iteration-bound-held" + (":attained" if conv and iters == K else ""))
     # disp contract
     if conv and out1 != out0:
         ctx.spec_fail(name + "_disp", "%s: disp=True changes a converged result" % name, rep)
@@ -382,6 +406,12 @@ def gen_brackets(ctx, cases, n):
                 line = "C17 %s sc=float f=%s a=%s b=%s xtol=%s rtol=%s maxiter=%d disp=%d" % (
                     name, e.wire(), fx(a), fx(b), fx(xtol), fx(rtol), maxiter, disp)
                 cases.append(Case(line, out, nontrivial=(r0 is not None and r0.iterations >= 2), tag=name))
+            if name == "bisect" and xtol > 0:
+                # the model's iteration bound (driver op bisectk) against the same halving done here, in doubles and exactly
+                for sc_, ex_ in (("float", False), ("rat", True)):
+                    kk = halvings(a, b, xtol, cap=3000, exact=ex_)
+                    cases.append(Case("C17 bisectk sc=%s a=%s b=%s xtol=%s cap=3000" % (sc_, fx(a), fx(b), fx(xtol)),
+                                      "none" if kk is None else str(kk), nontrivial=False, tag="bisectk"))
 
 
 # ----------------------------------------------------------------------------------------
